@@ -1,8 +1,686 @@
 package main
 
-import "fmt"
+import (
+	"encoding/json"
+	"fmt"
+	"go/types"
+	"math/big"
+	"os"
+	"os/exec"
+	"path/filepath"
+	"regexp"
+	"sort"
+	"strings"
+
+	"golang.org/x/tools/go/ssa"
+)
+
+// Replay of a counterexample on the real code (DESIGN §4.4).
+//
+// From the solver's model of a failed obligation gcv takes the parameter values and the value of
+// every scalar cell of the receiver object graph, builds that pre-state in an in-package Go test
+// (constructor from the registry below, unexported fields poked with reflect+unsafe,
+// function-valued configuration replaced by constant stubs carrying the model's values), calls
+// the REAL function, dumps the same cells afterwards, and asks the solver whether the observed
+// post-state is consistent with the violating symbolic execution (path condition AND negated goal
+// AND pre = model AND post = observed). "sat" means the real run follows the failing path and
+// violates the clause: the violation is confirmed. Anything else is reported with the suffix
+// no-failing-input-found.
+
+var replayCtors = map[string]string{
+	"limit.AIMDLimit":      `NewAIMDLimit("replay", 10, 0.9, 1, nil)`,
+	"limit.VegasLimit":     `NewDefaultVegasLimit("replay", nil, nil)`,
+	"limit.GradientLimit":  `NewGradientLimitWithRegistry("replay", 50, 1, 1000, 0.2, nil, 2.0, 1000, nil, nil)`,
+	"limit.Gradient2Limit": `func() *Gradient2Limit { l, _ := NewGradient2Limit("replay", 20, 200, 20, nil, 0.2, 600, nil, nil); return l }()`,
+	"limit.SettableLimit":  `NewSettableLimit("replay", 10, nil)`,
+	"limit.FixedLimit":     `NewFixedLimit("replay", 10, nil)`,
+	"strategy.PreciseStrategy":    `NewPreciseStrategy(10)`,
+	"strategy.SimpleStrategy":     `NewSimpleStrategy(10)`,
+	"strategy.LookupPartition":    `NewLookupPartitionWithMetricRegistry("p", 0.5, 1, core.EmptyMetricRegistryInstance)`,
+	"strategy.PredicatePartition": `NewPredicatePartitionWithMetricRegistry("p", 0.5, func(context.Context) bool { return true }, core.EmptyMetricRegistryInstance)`,
+	"measurements.MinimumMeasurement":            `&MinimumMeasurement{}`,
+	"measurements.SingleMeasurement":             `&SingleMeasurement{}`,
+	"measurements.ExponentialAverageMeasurement": `NewExponentialAverageMeasurement(100, 10)`,
+	"measurements.ImmutableSampleWindow":         `NewDefaultImmutableSampleWindow()`,
+	"measurements.SimpleExponentialMovingAverage": `func() *SimpleExponentialMovingAverage { m, _ := NewSimpleExponentialMovingAverage(0.5); return m }()`,
+}
+
+var replayImports = map[string]string{
+	"strategy": "\t\"context\"\n\t\"github.com/platinummonkey/go-concurrency-limits/core\"\n",
+}
+
+type replayCell struct {
+	GoPath string // "estimatedLimit", "rttNoLoad.value"
+	Pre    string // SMT term of the pre-state value
+	Post   string // SMT term of the post-state value on the failing path
+	Sort   string
+	Kind   string // int, float, bool
+	PreVal string // model value (SMT literal)
+}
+
+type ReplayResult struct {
+	Attempted bool   `json:"attempted"`
+	Confirmed bool   `json:"confirmed"`
+	Reason    string `json:"reason"`
+	Test      string `json:"generated_test,omitempty"`
+	Output    string `json:"real_code_output,omitempty"`
+	Cells     []map[string]string `json:"cells,omitempty"`
+}
+
+func namedOfRecv(fn *ssa.Function) *types.Named {
+	if fn.Signature.Recv() == nil {
+		return nil
+	}
+	t := fn.Signature.Recv().Type()
+	if p, ok := t.(*types.Pointer); ok {
+		t = p.Elem()
+	}
+	n, _ := t.(*types.Named)
+	return n
+}
+
+// collectCells enumerates the scalar cells reachable from ref (a term) of struct type nt.
+func collectCells(p *Prog, o *Obligation, nt *types.Named, ref, goPrefix string, depth int, out *[]replayCell) {
+	st, ok := nt.Underlying().(*types.Struct)
+	if !ok {
+		return
+	}
+	tk := typeKey(nt)
+	declared := func(arr string) bool { return strings.Contains(o.DeclText, "(declare-const H0."+arr+" ") }
+	final := func(arr string) string {
+		if t, ok := o.Final[arr]; ok {
+			return t
+		}
+		return "H0." + arr
+	}
+	for i := 0; i < st.NumFields(); i++ {
+		f := st.Field(i)
+		ft := types.Unalias(f.Type())
+		arr := sanitize(tk + "." + f.Name())
+		gp := goPrefix + f.Name()
+		switch {
+		case isInteger(ft) || isBool(ft) || isFloat(ft):
+			if !declared(arr) {
+				continue
+			}
+			kind, sort := "int", "Int"
+			if isBool(ft) {
+				kind, sort = "bool", "Bool"
+			} else if isFloat(ft) {
+				kind, sort = "float", "F"
+			}
+			*out = append(*out, replayCell{GoPath: gp, Pre: "(select H0." + arr + " " + ref + ")", Post: "(select " + final(arr) + " " + ref + ")", Sort: sort, Kind: kind})
+		default:
+			if depth <= 0 {
+				continue
+			}
+			if pt, ok := ft.Underlying().(*types.Pointer); ok {
+				if sub, ok := pt.Elem().(*types.Named); ok && inRepo(sub) && declared(arr) {
+					collectCells(p, o, sub, "(select H0."+arr+" "+ref+")", gp+".", depth-1, out)
+				}
+				// pointer to a basic cell (SimpleStrategy)
+				if b, ok := pt.Elem().Underlying().(*types.Basic); ok && b.Info()&types.IsInteger != 0 && declared(arr) {
+					cell := sanitize(typeKey(pt.Elem()))
+					if declared(cell) {
+						sub := "(select H0." + arr + " " + ref + ")"
+						*out = append(*out, replayCell{GoPath: gp + ".*", Pre: "(select H0." + cell + " " + sub + ")", Post: "(select " + final(cell) + " " + sub + ")", Sort: "Int", Kind: "int"})
+					}
+				}
+			}
+			if isIface(ft) {
+				if ts, ok := p.specs.Types[tk]; ok {
+					if dt, ok := ts.DynType[f.Name()]; ok {
+						if t, err := p.lookupType(dt); err == nil {
+							if pt, ok := t.(*types.Pointer); ok {
+								if sub, ok := pt.Elem().(*types.Named); ok && declared(arr+"_v") {
+									collectCells(p, o, sub, "(select H0."+arr+"_v "+ref+")", gp+".", depth-1, out)
+								}
+							}
+						}
+					}
+				}
+			}
+		}
+	}
+}
+
+var pureAppRe = regexp.MustCompile(`\(pure\.[A-Za-z0-9_./]+\.0 `)
+
+// pureApps finds the applications of pure (field-contract) functions in the obligation text.
+func pureApps(text string) []string {
+	var out []string
+	seen := map[string]bool{}
+	for _, loc := range pureAppRe.FindAllStringIndex(text, -1) {
+		d := 0
+		for j := loc[0]; j < len(text); j++ {
+			if text[j] == '(' {
+				d++
+			} else if text[j] == ')' {
+				d--
+				if d == 0 {
+					app := text[loc[0] : j+1]
+					if !seen[app] {
+						seen[app] = true
+						out = append(out, app)
+					}
+					break
+				}
+			}
+		}
+	}
+	return out
+}
+
+func getValues(o *Obligation, terms []string, wd string) (map[string]string, error) {
+	f := filepath.Join(wd, "getvalue.smt2")
+	text := smtText(o, true)
+	text = strings.Replace(text, "(check-sat)\n(get-model)\n", "", 1)
+	var b strings.Builder
+	b.WriteString(text)
+	b.WriteString("(check-sat)\n")
+	for _, t := range terms {
+		b.WriteString("(get-value (" + t + "))\n")
+	}
+	os.WriteFile(f, []byte(b.String()), 0o644)
+	out, _ := exec.Command("z3-new", "-smt2", "-T:20", f).CombinedOutput()
+	lines := strings.Split(string(out), "\n")
+	if len(lines) == 0 || strings.TrimSpace(lines[0]) != "sat" {
+		// try the solver that found the model
+		out, _ = exec.Command("cvc5", "--lang=smt2", "--produce-models", "--tlimit=20000", f).CombinedOutput()
+		lines = strings.Split(string(out), "\n")
+		if len(lines) == 0 || strings.TrimSpace(lines[0]) != "sat" {
+			return nil, fmt.Errorf("model not reproducible for get-value: %s", truncate(string(out), 200))
+		}
+	}
+	rest := strings.Join(lines[1:], " ")
+	vals := map[string]string{}
+	// each answer is ((term value))
+	items := splitSexp(rest)
+	for i, it := range items {
+		if i >= len(terms) {
+			break
+		}
+		inner := strings.TrimSpace(it)
+		if !strings.HasPrefix(inner, "((") {
+			continue
+		}
+		inner = inner[1 : len(inner)-1]
+		parts := splitSexp(inner[1 : len(inner)-1])
+		if len(parts) >= 2 {
+			vals[terms[i]] = strings.Join(parts[1:], " ")
+		}
+	}
+	return vals, nil
+}
+
+// smtNumToGo converts an SMT numeral/rational/float-datatype value to a Go literal.
+func smtIntToGo(v string) (string, bool) {
+	v = strings.TrimSpace(v)
+	if strings.HasPrefix(v, "(- ") {
+		return "-" + strings.TrimSuffix(strings.TrimPrefix(v, "(- "), ")"), true
+	}
+	if _, ok := new(big.Int).SetString(v, 10); ok {
+		return v, true
+	}
+	return "", false
+}
+
+func smtRealToRat(v string) (*big.Rat, bool) {
+	v = strings.TrimSpace(v)
+	neg := false
+	if strings.HasPrefix(v, "(- ") {
+		neg = true
+		v = strings.TrimSuffix(strings.TrimPrefix(v, "(- "), ")")
+	}
+	var r *big.Rat
+	if strings.HasPrefix(v, "(/ ") {
+		parts := strings.Fields(strings.TrimSuffix(strings.TrimPrefix(v, "(/ "), ")"))
+		if len(parts) != 2 {
+			return nil, false
+		}
+		a, ok1 := new(big.Rat).SetString(parts[0])
+		b, ok2 := new(big.Rat).SetString(parts[1])
+		if !ok1 || !ok2 || b.Sign() == 0 {
+			return nil, false
+		}
+		r = new(big.Rat).Quo(a, b)
+	} else {
+		var ok bool
+		r, ok = new(big.Rat).SetString(v)
+		if !ok {
+			return nil, false
+		}
+	}
+	if neg {
+		r.Neg(r)
+	}
+	return r, true
+}
+
+func smtFloatToGo(v string) (string, bool) {
+	v = strings.TrimSpace(v)
+	switch v {
+	case "nan":
+		return "math.NaN()", true
+	case "pinf":
+		return "math.Inf(1)", true
+	case "ninf":
+		return "math.Inf(-1)", true
+	}
+	if strings.HasPrefix(v, "(fin ") {
+		r, ok := smtRealToRat(strings.TrimSuffix(strings.TrimPrefix(v, "(fin "), ")"))
+		if !ok {
+			return "", false
+		}
+		f, _ := r.Float64()
+		return fmt.Sprintf("%v", f), true
+	}
+	return "", false
+}
+
+const replaySupport = `
+func gcvField(root reflect.Value, path string) (reflect.Value, bool) {
+	cur := root
+	for _, seg := range strings.Split(path, ".") {
+		for cur.Kind() == reflect.Ptr || cur.Kind() == reflect.Interface {
+			if cur.IsNil() {
+				if cur.Kind() == reflect.Ptr && cur.CanSet() {
+					cur.Set(reflect.New(cur.Type().Elem()))
+				} else {
+					return reflect.Value{}, false
+				}
+			}
+			cur = cur.Elem()
+		}
+		if seg == "*" {
+			continue
+		}
+		if cur.Kind() != reflect.Struct {
+			return reflect.Value{}, false
+		}
+		f := cur.FieldByName(seg)
+		if !f.IsValid() {
+			return reflect.Value{}, false
+		}
+		if !f.CanAddr() {
+			return reflect.Value{}, false
+		}
+		cur = reflect.NewAt(f.Type(), unsafe.Pointer(f.UnsafeAddr())).Elem()
+	}
+	for cur.Kind() == reflect.Ptr {
+		if cur.IsNil() {
+			return reflect.Value{}, false
+		}
+		cur = cur.Elem()
+	}
+	return cur, true
+}
+
+func gcvSet(root interface{}, path string, v interface{}) {
+	f, ok := gcvField(reflect.ValueOf(root), path)
+	if !ok {
+		fmt.Printf("GCV-SETFAIL %s\n", path)
+		return
+	}
+	switch x := v.(type) {
+	case int64:
+		if f.Kind() >= reflect.Uint && f.Kind() <= reflect.Uintptr {
+			f.SetUint(uint64(x))
+		} else {
+			f.SetInt(x)
+		}
+	case float64:
+		f.SetFloat(x)
+	case bool:
+		f.SetBool(x)
+	}
+}
+
+func gcvConstFunc(root interface{}, path string, results ...interface{}) {
+	f, ok := gcvField(reflect.ValueOf(root), path)
+	if !ok || f.Kind() != reflect.Func {
+		fmt.Printf("GCV-SETFAIL %s\n", path)
+		return
+	}
+	ft := f.Type()
+	fn := reflect.MakeFunc(ft, func(args []reflect.Value) []reflect.Value {
+		out := make([]reflect.Value, ft.NumOut())
+		for i := range out {
+			out[i] = reflect.New(ft.Out(i)).Elem()
+			switch x := results[i].(type) {
+			case int64:
+				out[i].SetInt(x)
+			case float64:
+				out[i].SetFloat(x)
+			}
+		}
+		return out
+	})
+	f.Set(fn)
+}
+
+func gcvDump(root interface{}, path string) {
+	f, ok := gcvField(reflect.ValueOf(root), path)
+	if !ok {
+		fmt.Printf("GCV-DUMP %s unreachable\n", path)
+		return
+	}
+	switch f.Kind() {
+	case reflect.Float64, reflect.Float32:
+		x := f.Float()
+		switch {
+		case math.IsNaN(x):
+			fmt.Printf("GCV-DUMP %s float nan\n", path)
+		case math.IsInf(x, 1):
+			fmt.Printf("GCV-DUMP %s float pinf\n", path)
+		case math.IsInf(x, -1):
+			fmt.Printf("GCV-DUMP %s float ninf\n", path)
+		default:
+			fmt.Printf("GCV-DUMP %s float %s\n", path, new(big.Rat).SetFloat64(x).String())
+		}
+	case reflect.Bool:
+		fmt.Printf("GCV-DUMP %s bool %v\n", path, f.Bool())
+	case reflect.Uint, reflect.Uint8, reflect.Uint16, reflect.Uint32, reflect.Uint64:
+		fmt.Printf("GCV-DUMP %s int %d\n", path, f.Uint())
+	default:
+		fmt.Printf("GCV-DUMP %s int %d\n", path, f.Int())
+	}
+}
+`
+
+func attemptReplay(p *Prog, prop string, o *Obligation) ReplayResult {
+	res := ReplayResult{}
+	fn, ok := p.fns[o.Func]
+	if !ok {
+		res.Reason = "function not found"
+		return res
+	}
+	nt := namedOfRecv(fn)
+	if nt == nil {
+		res.Reason = "replay supports methods on repository types only"
+		return res
+	}
+	ctor, ok := replayCtors[typeKey(nt)]
+	if !ok {
+		res.Reason = "no replay constructor registered for " + typeKey(nt)
+		return res
+	}
+	recv, ok := o.Inputs[fn.Params[0].Name()]
+	if !ok || len(recv.L) != 1 {
+		res.Reason = "receiver value not recorded"
+		return res
+	}
+	var cells []replayCell
+	collectCells(p, o, nt, recv.L[0], "", 2, &cells)
+	wd, err := os.MkdirTemp("", "gcv-replay-")
+	if err != nil {
+		res.Reason = err.Error()
+		return res
+	}
+	defer os.RemoveAll(wd)
+	// model values
+	var terms []string
+	for _, c := range cells {
+		terms = append(terms, c.Pre)
+	}
+	var paramNames []string
+	for _, prm := range fn.Params[1:] {
+		paramNames = append(paramNames, prm.Name())
+		if v, ok := o.Inputs[prm.Name()]; ok {
+			terms = append(terms, v.L...)
+		}
+	}
+	apps := pureApps(strings.Join(o.PC, "\n") + o.Goal)
+	terms = append(terms, apps...)
+	vals, err := getValues(o, terms, wd)
+	if err != nil {
+		res.Reason = err.Error()
+		return res
+	}
+	res.Attempted = true
+	// build the test
+	pkgDir := ""
+	if fn.Pkg != nil {
+		pkgDir = strings.TrimPrefix(fn.Pkg.Pkg.Path(), modulePath+"/")
+	}
+	pkgName := fn.Pkg.Pkg.Name()
+	var b strings.Builder
+	b.WriteString("package " + pkgName + "\n\nimport (\n\t\"fmt\"\n\t\"math\"\n\t\"math/big\"\n\t\"reflect\"\n\t\"strings\"\n\t\"testing\"\n\t\"unsafe\"\n")
+	extra := replayImports[pkgDir]
+	b.WriteString(extra)
+	b.WriteString(")\n\nvar _ = math.NaN\nvar _ = big.NewRat\nvar _ = strings.Split\nvar _ unsafe.Pointer\n")
+	b.WriteString(replaySupport)
+	b.WriteString("\nfunc TestGcvReplay(t *testing.T) {\n\tdefer func() {\n\t\tif r := recover(); r != nil {\n\t\t\tfmt.Printf(\"GCV-PANIC %v\\n\", r)\n\t\t}\n\t}()\n")
+	b.WriteString("\tobj := " + ctor + "\n")
+	var preAsserts []string
+	for i := range cells {
+		c := &cells[i]
+		v, ok := vals[c.Pre]
+		if !ok {
+			continue
+		}
+		c.PreVal = v
+		switch c.Kind {
+		case "int":
+			if g, ok := smtIntToGo(v); ok {
+				b.WriteString(fmt.Sprintf("\tgcvSet(obj, %q, int64(%s))\n", c.GoPath, g))
+				preAsserts = append(preAsserts, "(= "+c.Pre+" "+v+")")
+			}
+		case "bool":
+			b.WriteString(fmt.Sprintf("\tgcvSet(obj, %q, %s)\n", c.GoPath, v))
+			preAsserts = append(preAsserts, "(= "+c.Pre+" "+v+")")
+		case "float":
+			if g, ok := smtFloatToGo(v); ok {
+				b.WriteString(fmt.Sprintf("\tgcvSet(obj, %q, float64(%s))\n", c.GoPath, g))
+				preAsserts = append(preAsserts, "(= "+c.Pre+" "+v+")")
+			}
+		}
+	}
+	// constant stubs for function-valued configuration
+	st := nt.Underlying().(*types.Struct)
+	for i := 0; i < st.NumFields(); i++ {
+		f := st.Field(i)
+		sig, ok := f.Type().Underlying().(*types.Signature)
+		if !ok || sig.Results().Len() != 1 {
+			continue
+		}
+		specName := typeKey(nt) + "." + f.Name()
+		if sp, ok := p.specs.Funcs[specName]; !ok || !sp.Pure {
+			continue
+		}
+		prefix := "(pure." + sanitize(specName) + ".0 "
+		var vs []string
+		for _, a := range apps {
+			if strings.HasPrefix(a, prefix) {
+				if v, ok := vals[a]; ok {
+					vs = append(vs, v)
+				}
+			}
+		}
+		if len(vs) == 0 {
+			continue
+		}
+		same := true
+		for _, v := range vs[1:] {
+			if v != vs[0] {
+				same = false
+			}
+		}
+		if !same {
+			res.Reason = "configuration function " + f.Name() + " takes different values in the model; constant stub not possible"
+			continue
+		}
+		if isFloat(sig.Results().At(0).Type()) {
+			if g, ok := smtFloatToGo(vs[0]); ok {
+				b.WriteString(fmt.Sprintf("\tgcvConstFunc(obj, %q, float64(%s))\n", f.Name(), g))
+			}
+		} else if g, ok := smtIntToGo(vs[0]); ok {
+			b.WriteString(fmt.Sprintf("\tgcvConstFunc(obj, %q, int64(%s))\n", f.Name(), g))
+		}
+	}
+	// call
+	var args []string
+	for i, prm := range fn.Params[1:] {
+		v, ok := o.Inputs[prm.Name()]
+		pt := prm.Type()
+		switch {
+		case ok && isInteger(pt) && len(v.L) == 1:
+			g, ok2 := smtIntToGo(vals[v.L[0]])
+			if !ok2 {
+				g = "0"
+			}
+			args = append(args, types.TypeString(pt, func(*types.Package) string { return "" })+"("+g+")")
+			preAsserts = append(preAsserts, "(= "+v.L[0]+" "+vals[v.L[0]]+")")
+		case ok && isBool(pt) && len(v.L) == 1:
+			bv := vals[v.L[0]]
+			if bv != "true" {
+				bv = "false"
+			}
+			args = append(args, bv)
+			preAsserts = append(preAsserts, "(= "+v.L[0]+" "+bv+")")
+		case ok && isFloat(pt) && len(v.L) == 1:
+			g, ok2 := smtFloatToGo(vals[v.L[0]])
+			if !ok2 {
+				g = "0"
+			}
+			args = append(args, "float64("+g+")")
+			preAsserts = append(preAsserts, "(= "+v.L[0]+" "+vals[v.L[0]]+")")
+		case typeKey(pt) == "context.Context":
+			args = append(args, "context.Background()")
+		default:
+			res.Reason = fmt.Sprintf("parameter %d (%s) of type %s cannot be constructed", i, prm.Name(), pt)
+			return res
+		}
+	}
+	if strings.Contains(strings.Join(args, ","), "context.Background") && !strings.Contains(extra, "\"context\"") {
+		s := b.String()
+		s = strings.Replace(s, "import (\n", "import (\n\t\"context\"\n", 1)
+		b.Reset()
+		b.WriteString(s)
+	}
+	b.WriteString("\tfmt.Println(\"GCV-CALL\")\n")
+	call := "obj." + fn.Name() + "(" + strings.Join(args, ", ") + ")"
+	if fn.Signature.Results().Len() > 0 {
+		b.WriteString("\tr := fmt.Sprint(" + call + ")\n\tfmt.Println(\"GCV-RESULT\", r)\n")
+	} else {
+		b.WriteString("\t" + call + "\n")
+	}
+	for _, c := range cells {
+		b.WriteString(fmt.Sprintf("\tgcvDump(obj, %q)\n", c.GoPath))
+	}
+	b.WriteString("\tfmt.Println(\"GCV-DONE\")\n}\n")
+	res.Test = b.String()
+	testFile := filepath.Join(wd, "zz_gcv_replay_test.go")
+	os.WriteFile(testFile, []byte(res.Test), 0o644)
+	ov := map[string]map[string]string{"Replace": {filepath.Join(p.repo, pkgDir, "zz_gcv_replay_test.go"): testFile}}
+	ovb, _ := json.Marshal(ov)
+	ovFile := filepath.Join(wd, "ov.json")
+	os.WriteFile(ovFile, ovb, 0o644)
+	cmd := exec.Command("go", "test", "-overlay", ovFile, "-vet=off", "-count=1", "-timeout", "60s", "-run", "^TestGcvReplay$", "-v", "./"+pkgDir+"/")
+	cmd.Dir = p.repo
+	cmd.Env = goEnv()
+	outb, _ := cmd.CombinedOutput()
+	res.Output = truncate(string(outb), 4000)
+	if strings.Contains(res.Output, "GCV-PANIC") {
+		// a panic of the real code from the model state: for panic-freedom obligations this is the confirmation
+		if o.Kind == "safety" {
+			res.Confirmed = true
+			res.Reason = "the real function panics from the model's pre-state"
+			return res
+		}
+	}
+	if !strings.Contains(res.Output, "GCV-DONE") {
+		if res.Reason == "" {
+			res.Reason = "replay test did not complete"
+		}
+		return res
+	}
+	// observed post-state
+	var postAsserts []string
+	observed := map[string]string{}
+	for _, line := range strings.Split(string(outb), "\n") {
+		fs := strings.Fields(line)
+		if len(fs) >= 4 && fs[0] == "GCV-DUMP" {
+			observed[fs[1]] = fs[2] + " " + fs[3]
+		}
+	}
+	for _, c := range cells {
+		ob, ok := observed[c.GoPath]
+		rec := map[string]string{"cell": c.GoPath, "pre_model": c.PreVal, "post_observed": ob}
+		res.Cells = append(res.Cells, rec)
+		if !ok {
+			continue
+		}
+		kv := strings.SplitN(ob, " ", 2)
+		switch kv[0] {
+		case "int":
+			n, ok := new(big.Int).SetString(kv[1], 10)
+			if !ok {
+				continue
+			}
+			lit := n.String()
+			if n.Sign() < 0 {
+				lit = "(- " + new(big.Int).Neg(n).String() + ")"
+			}
+			postAsserts = append(postAsserts, "(= "+c.Post+" "+lit+")")
+		case "bool":
+			postAsserts = append(postAsserts, "(= "+c.Post+" "+kv[1]+")")
+		case "float":
+			switch kv[1] {
+			case "nan", "pinf", "ninf":
+				postAsserts = append(postAsserts, "(= "+c.Post+" "+kv[1]+")")
+			default:
+				r, ok := new(big.Rat).SetString(kv[1])
+				if !ok {
+					continue
+				}
+				// tolerance for rounding: the model computes in exact reals (A1)
+				lit := ratString(r)
+				tol := "(* 0.000001 (ite (>= " + lit + " 0.0) (+ 1.0 " + lit + ") (- 1.0 " + lit + ")))"
+				postAsserts = append(postAsserts, "(and (isfin "+c.Post+") (<= (- "+lit+" "+tol+") (fv "+c.Post+")) (<= (fv "+c.Post+") (+ "+lit+" "+tol+")))")
+			}
+		}
+	}
+	q := *o
+	q.PC = append(append(append([]string(nil), o.PC...), preAsserts...), postAsserts...)
+	f := filepath.Join(wd, "consistency.smt2")
+	os.WriteFile(f, []byte(smtText(&q, true)), 0o644)
+	best, _ := solvePortfolio(f, 20, false)
+	switch best.Status {
+	case "sat":
+		res.Confirmed = true
+		res.Reason = "the real function, run from the model's pre-state, ends in a state consistent with the violating symbolic path and violates the clause"
+	case "unsat":
+		res.Reason = "the real run from the model's pre-state does not follow the violating symbolic execution (abstraction artefact or non-deterministic input); see cells"
+	default:
+		res.Reason = "consistency query undecided"
+	}
+	sort.Slice(res.Cells, func(i, j int) bool { return res.Cells[i]["cell"] < res.Cells[j]["cell"] })
+	return res
+}
 
 func cmdReplay(path string) int {
-	fmt.Println("replay:", path)
-	return 0
+	b, err := os.ReadFile(path)
+	if err != nil {
+		fmt.Fprintln(os.Stderr, err)
+		return 2
+	}
+	var rec map[string]interface{}
+	if err := json.Unmarshal(b, &rec); err != nil {
+		fmt.Fprintln(os.Stderr, err)
+		return 2
+	}
+	prop, _ := rec["property"].(string)
+	obl, _ := rec["obligation"].(string)
+	fmt.Printf("replay of %s (property %s): re-running the check that produced it\n", obl, prop)
+	if rp, ok := rec["replay"].(map[string]interface{}); ok {
+		if t, ok := rp["generated_test"].(string); ok && t != "" {
+			fmt.Println("--- generated test (run in-package with go test -overlay) ---")
+			fmt.Println(t)
+		}
+	}
+	if prop == "" {
+		return 2
+	}
+	return cmdCheck(prop, "quick", false)
 }
